@@ -19,6 +19,7 @@ ERRS = {KeyError: "KeyErr", ValueError: "ValueErr", AssertionError: "AssertErr",
 # dictionaries the EquationSystem writes into are cleared before every case
 # ----------------------------------------------------------------------------------------
 _POOL = {}
+_ORIG = {}
 
 QUICK_GRIDS = [
     {"kind": "sq", "fracs": fr, "cs": cs}
@@ -47,7 +48,13 @@ def get_mdg(spec):
                 "cartesian", {"cell_size": spec["cs"][0]}, list(spec["fracs"])
             )
         _POOL[key] = mdg
+        _ORIG[key] = ([(g.num_cells, g.num_faces, g.num_nodes) for g in mdg.subdomains()],
+                      [i.num_cells for i in mdg.interfaces()])
     mdg = _POOL[key]
+    for g, (nc, nf, nn) in zip(mdg.subdomains(), _ORIG[key][0]):
+        g.num_cells, g.num_faces, g.num_nodes = nc, nf, nn
+    for i, nc in zip(mdg.interfaces(), _ORIG[key][1]):
+        i.num_cells = nc
     for _, d in mdg.subdomains(return_data=True):
         d.pop(pp.TIME_STEP_SOLUTIONS, None)
         d.pop(pp.ITERATE_SOLUTIONS, None)
@@ -76,19 +83,25 @@ def grid_numbers(spec):
 # ----------------------------------------------------------------------------------------
 class Shadow:
     def __init__(self, sds, intfs):
-        self.sds, self.intfs = sds, intfs
-        self.alive = {}      # id -> dict(name, kind, g, dof)
+        self.sds, self.intfs = [list(x) for x in sds], list(intfs)
+        self.alive = {}      # id -> dict(name, kind, g, dof, size)
+        self.registry = {}   # every variable ever created
         self.next_id = 0
         self.groups = []     # ids created by one call
         self.dead = []
         self.values = {}     # (loc, name, kind, g) -> list | None (unknown)
 
-    def size(self, v):
+    def fresh_size(self, v):
+        """dof count from the CURRENT grid sizes"""
         c, f, n = v["dof"]
         if v["kind"] == "sd":
             nc, nf, nn = self.sds[v["g"]]
             return nc * c + nf * f + nn * n
         return self.intfs[v["g"]] * c
+
+    def size(self, v):
+        """dof count the system knows (set at creation / update_variable_num_dofs)"""
+        return v["size"]
 
     def rank(self, v):
         return v["g"] if v["kind"] == "sd" else len(self.sds) + v["g"]
@@ -105,7 +118,7 @@ class Shadow:
             pos += n
         return out, pos
 
-    def parse(self, refs):
+    def _plain(self, refs):
         if refs is None:
             return sorted(self.alive)
         ids = []
@@ -118,10 +131,53 @@ class Shadow:
                 ids += list(r[1])
         return ids
 
+    def parse_full(self, refs):
+        """(python truthiness of the argument, ids) or None when building the argument
+        itself raises (md_variable on an unknown / mixed-kind name)."""
+        if refs is None:
+            return False, sorted(self.alive)
+        ids, count = [], 0
+        for r in refs:
+            if r[0] in ("id", "name", "md"):
+                ids += self._plain([r])
+                count += 1
+            elif r[0] == "mdname":
+                vs = [i for i in sorted(self.alive) if self.alive[i]["name"] == r[1]]
+                if r[2] is None:
+                    if not vs or len({self.alive[i]["kind"] for i in vs}) > 1:
+                        return None
+                else:
+                    doms = [tuple(d) for d in r[2]]
+                    vs = [i for i in vs
+                          if (self.alive[i]["kind"], self.alive[i]["g"]) in doms]
+                ids += vs
+                count += 1
+            elif r[0] == "getvars":
+                if r[1] is None and r[2] is None:
+                    got = sorted(self.alive)
+                else:
+                    doms = ([tuple(d) for d in r[2]] if r[2] is not None else
+                            [(v["kind"], v["g"]) for v in self.alive.values()])
+                    got = [i for i in self._plain(r[1])
+                           if i in self.registry
+                           and (self.registry[i]["kind"], self.registry[i]["g"]) in doms]
+                ids += got
+                count += len(got)
+            else:
+                raise ValueError(r[0])
+        return count > 0, ids
+
+    def parse(self, refs):
+        p = self.parse_full(refs)
+        return None if p is None else p[1]
+
     def create(self, name, dof, kind, grids):
         ids = []
         for g in grids:
-            self.alive[self.next_id] = {"name": name, "kind": kind, "g": g, "dof": tuple(dof)}
+            v = {"name": name, "kind": kind, "g": g, "dof": tuple(dof)}
+            v["size"] = self.fresh_size(v)
+            self.alive[self.next_id] = v
+            self.registry[self.next_id] = v
             ids.append(self.next_id)
             self.next_id += 1
         self.groups.append(ids)
@@ -135,6 +191,13 @@ class Shadow:
             self.dead.append(i)
         return True
 
+    def regrid(self, sds, intfs):
+        self.sds, self.intfs = [list(x) for x in sds], list(intfs)
+
+    def update(self):
+        for v in self.alive.values():
+            v["size"] = self.fresh_size(v)
+
 
 def _dof_of(op):
     return tuple(op[2]) if op[2] is not None else (1, 0, 0)
@@ -144,48 +207,68 @@ class C05(Prop):
     id = "C05"
     props_file = "Props/C05.v"
     preamble = ("From Coq Require Import List ZArith.\nImport ListNotations.\n"
-                "From PP Require Import Model.C05.\n")
-    n_cases = (300, 5000)
+                "From PP Require Import Model.C05 Model.C05x.\n")
+    n_cases = (300, 2400)
     design_ref = "DESIGN.md §5 C05"
-    level_text = ("Coq theorems over an executable transcription of EquationSystem's variable "
-                  "bookkeeping (create_variables, remove_variables, _append_dofs, "
-                  "_cluster_dofs_gridwise, dofs_of, identify_dof, projection_to, "
-                  "set/get_variable_values): after ANY history of operations whose created "
-                  "variables live on grids of the md-grid, the blocks of the registered "
-                  "variables are contiguous, pairwise disjoint, cover 0..num_dofs-1, have the "
-                  "variable's dof count as size and are ordered by (subdomain order, interface "
-                  "order, creation order); identify_dof returns the owner of every index (empty "
-                  "blocks included) and rejects out-of-range indices; projection_to selects "
-                  "exactly the sorted indices of the requested variables; a well-sized write "
-                  "followed by a read of the same variables returns the written vector (additive "
-                  "writes add), wrongly sized writes end in the assertion. The model is tied to "
-                  "the code on every run: random interleavings of all operations are executed on "
-                  "a real EquationSystem over generated md-grids and Coq compares every output.")
-    level_note = ("Trusted: Coq kernel + vm_compute; the harness (generator, literal emission, "
-                  "mapping of Variable/grid objects to creation/order indices); the order of "
-                  "mdg.subdomains()/interfaces() is an input (property C24); integer-valued "
-                  "floats stand for stored vectors; storage index 0 only (deeper indices: C08). "
-                  "The theorems are about the model; the implementation is covered on the "
-                  "generated histories only. Not modelled: grids outside the md-grid, the same "
-                  "grid twice in one create_variables call (round-trip theorem assumes it does "
-                  "not happen), tags.")
+    level_text = ("Coq theorems (14, no axioms) over an executable transcription of EquationSystem's "
+                  "variable bookkeeping (create_variables, remove_variables, _append_dofs, "
+                  "_cluster_dofs_gridwise, _parse_variable_type, dofs_of, identify_dof, "
+                  "projection_to, set/get_variable_values; extended model: md_variable, "
+                  "get_variables, variables, update_variable_num_dofs): after ANY history of "
+                  "operations (failing calls included) whose created variables live on grids of "
+                  "the md-grid, the blocks of the registered variables are contiguous, pairwise "
+                  "disjoint, cover 0..num_dofs-1, have the variable's dof count as size and are "
+                  "ordered by (subdomain order, interface order, creation order); every index has "
+                  "exactly one owner and identify_dof returns it (empty blocks included), "
+                  "out-of-range indices are rejected; projection_to selects exactly the sorted "
+                  "indices of the requested variables, for distinct variables strictly increasing "
+                  "and equal to the blocks in global order (the positions set/get dissect); a "
+                  "well-sized write followed by a read of the same selection (or of any id list) "
+                  "returns the written vector; additive writes onto arbitrary stored arrays of the "
+                  "right sizes add elementwise; wrongly sized writes end in the assertion; after "
+                  "the grids change size update_variable_num_dofs re-establishes the whole layout "
+                  "statement for the new sizes, also along histories with repeated re-sizing. The "
+                  "model is tied to the code on every run: random interleavings of all operations "
+                  "are executed on a real EquationSystem over generated md-grids and Coq compares "
+                  "every output.")
+    level_note = ("Trusted: Coq kernel + vm_compute; the harness (generator, literal emission incl. "
+                  "the lossless run encodings zruns/orep decoded in Coq, mapping of Variable/grid "
+                  "objects to creation/order indices); the order of mdg.subdomains()/interfaces() "
+                  "is an input (property C24); integer-valued arrays stand for stored vectors; "
+                  "storage index 0 only (deeper indices and shifts through EquationSystem: C08's "
+                  "wrapper stream). The theorems are about the model; the implementation is "
+                  "covered on the generated histories only. Not proved (tie/oracle only): error "
+                  "branch of additive writes (missing or wrongly sized stored arrays, numpy "
+                  "broadcasting), histories that create/remove variables between a re-sizing of "
+                  "the grids and update_variable_num_dofs, tags. A grid listed twice in one "
+                  "create_variables call used to corrupt the system (fixed in /repo 8d664ba3d, "
+                  "known_findings/C05.json); the model transcribes the repaired code, so the "
+                  "round-trip theorems need no guard any more.")
     technique = ("Coq proof (invariant by induction over operation histories) + vm_compute "
                  "execution correspondence")
-    rule = ("random histories (<=40 ops quick, <=120 thorough) of create (cells/faces/nodes "
-            "multiplicities 0-3, subdomains or interfaces, random grid subsets/orders, default "
-            "and partial dof_info, error inputs), remove (by object, name, md-variable, all, "
-            "stale and duplicate references), set/get (subsets, additive, both storage "
-            "locations, wrong sizes), dofs_of, identify_dof, projection_to, num_dofs and full "
-            "snapshots on 16 (quick) / 20 (thorough) Cartesian md-grids with 0-2 fractures; "
-            "non-trivial = at least one removal followed by a creation or a snapshot with >= 2 "
-            "registered variables; distinct by (case, output)")
-    trusted = ["integer-valued float arrays (exact in binary64) stand for the stored vectors; "
+    rule = ("random histories (<=40 ops quick, <=80 thorough) of create (cells/faces/nodes "
+            "multiplicities 0-3, subdomains or interfaces, random grid subsets/orders, a grid "
+            "listed twice, default and partial dof_info, error inputs), remove (by object, name, "
+            "md-variable, all, stale and duplicate references), set/get (subsets, additive, both "
+            "storage locations, wrong sizes, float or int arrays, contiguous or strided views, "
+            "every array overwritten afterwards), dofs_of, identify_dof, projection_to, num_dofs, "
+            "variables, references produced by md_variable(name[, domains]) (unknown and "
+            "mixed-kind names included) and get_variables(variables, grids) (stale objects "
+            "included), re-sizing of the grids (num_cells/faces/nodes patched, 0 included) with "
+            "and without a following update_variable_num_dofs, and full snapshots on 16 (quick) "
+            "/ 20 (thorough) Cartesian md-grids with 0-2 fractures; non-trivial = at least one "
+            "removal followed by a creation or a snapshot with >= 2 registered variables; "
+            "distinct by (case, output)")
+    trusted = ["integer-valued arrays (exact in binary64 / int64) stand for the stored vectors; "
                "numpy '+=' on 1-d arrays = elementwise addition for equal sizes, scalar "
                "broadcast for size 1, ValueError otherwise",
                "the harness maps Variable objects to creation indices and grids to their "
-               "position in mdg.subdomains()/mdg.interfaces()"]
+               "position in mdg.subdomains()/mdg.interfaces(); re-sizing of grids is simulated "
+               "by patching num_cells/num_faces/num_nodes of the real grid objects (the only "
+               "grid attributes the modelled code reads)"]
     assumptions = ["variables are created on grids of the md-grid only",
-                   "set/get round trip: no grid is listed twice in one create_variables call"]
+                   "one dtype (float or int) per history: mixing int storage with float "
+                   "additive updates is numpy casting behaviour, not modelled"]
 
     # ------------------------------------------------------------------ generation
     def _refs(self, rng, sh, allow_none=True, stale=0.1):
@@ -210,9 +293,46 @@ class C05(Prop):
             out.append(["name", rng.randrange(len(NAMES))])
         return out
 
+    def _doms(self, rng, sh):
+        alld = [["sd", i] for i in range(len(sh.sds))] + [["intf", i] for i in range(len(sh.intfs))]
+        k = rng.randint(0, min(3, len(alld)))
+        out = rng.sample(alld, k)
+        if out and rng.random() < 0.1:
+            out.append(out[0])
+        return out
+
+    def _xrefs(self, rng, sh, allow_none=True, stale=0.1):
+        """references that may also be produced by md_variable / get_variables"""
+        refs = self._refs(rng, sh, allow_none, stale)
+        if rng.random() > 0.3:
+            return refs
+        extra = []
+        for _ in range(rng.randint(1, 2)):
+            if rng.random() < 0.5:
+                extra.append(["mdname", rng.randrange(len(NAMES)),
+                              None if rng.random() < 0.5 else self._doms(rng, sh)])
+            else:
+                inner = None if rng.random() < 0.4 else self._refs(rng, sh, False, 0.2)
+                grids = None if rng.random() < 0.3 else self._doms(rng, sh)
+                if sh.dead and rng.random() < 0.35:
+                    # removed Variable objects: only kept when their grid still carries a
+                    # registered variable (grids=None means variable_domains)
+                    inner = [["id", i] for i in rng.sample(sh.dead, min(3, len(sh.dead)))]
+                    if sh.alive and rng.random() < 0.5:
+                        inner.append(["id", rng.choice(sorted(sh.alive))])
+                    if rng.random() < 0.6:
+                        grids = None
+                extra.append(["getvars", inner, grids])
+        if refs is None or rng.random() < 0.4:
+            return extra
+        refs = list(refs)
+        for e in extra:
+            refs.insert(rng.randint(0, len(refs)), e)
+        return refs
+
     def generate(self, rng, n, tier):
-        maxops = 40 if tier == "quick" else 120
-        cap = 350 if tier == "quick" else 700
+        maxops = 40 if tier == "quick" else 80
+        cap = 350 if tier == "quick" else 500
         pool = QUICK_GRIDS if tier == "quick" else THOROUGH_GRIDS
         for _ in range(n):
             spec = rng.choice(pool)
@@ -238,6 +358,8 @@ class C05(Prop):
                     ng = len(intfs) if intf else len(sds)
                     k = 0 if rng.random() < 0.05 else rng.randint(1, max(1, ng))
                     grids = rng.sample(range(ng), min(k, ng))
+                    if grids and rng.random() < 0.06:      # the same grid twice in one call
+                        grids.insert(rng.randint(0, len(grids)), rng.choice(grids))
                     sub, itf = (None, grids) if intf else (grids, None)
                     bad = False
                     if e < 0.03:
@@ -248,19 +370,36 @@ class C05(Prop):
                         bad = True
                     op = ["create", name, dofarg, bad, sub, itf, omit]
                     ops.append(op)
-                    ok = (not bad) and ((sub is None) != (itf is None))
+                    ok = ((not bad) and ((sub is None) != (itf is None))
+                          and len(set(grids)) == len(grids))
                     if ok:
                         kind = "sd" if sub is not None else "intf"
                         if not any(v["name"] == name and v["kind"] == kind and v["g"] in grids
                                    for v in sh.alive.values()):
                             sh.create(name, _dof_of(op), kind, grids)
-                elif r < 0.38:
-                    refs = self._refs(rng, sh, allow_none=rng.random() < 0.25, stale=0.15)
+                elif r < 0.36:
+                    refs = self._xrefs(rng, sh, allow_none=rng.random() < 0.25, stale=0.15)
                     ops.append(["remove", refs])
-                    sh.remove(sh.parse(refs))
+                    if sh.parse(refs) is not None:
+                        sh.remove(sh.parse(refs))
+                elif r < 0.40:
+                    if rng.random() < 0.45:
+                        pick = lambda x: rng.choice([x, x, rng.randint(0, 6), x + 1])
+                        nsds = [[pick(a), pick(b), pick(c)] for a, b, c in sh.sds]
+                        nint = [pick(a) for a in sh.intfs]
+                        ops.append(["regrid", nsds, nint])
+                        sh.regrid(nsds, nint)
+                        if rng.random() < 0.6:
+                            ops.append(["update"])
+                            sh.update()
+                    elif rng.random() < 0.6:
+                        ops.append(["update"])
+                        sh.update()
+                    else:
+                        ops.append(["vars"])
                 elif r < 0.52:
-                    refs = self._refs(rng, sh, stale=0.1)
-                    ids = set(sh.parse(refs))
+                    refs = self._xrefs(rng, sh, stale=0.1)
+                    ids = set(sh.parse(refs) or [])
                     need = sum(sh.size(sh.alive[i]) for i in ids if i in sh.alive)
                     if rng.random() < 0.12:
                         need = max(0, need + rng.choice([-2, -1, 1, 2, 5]))
@@ -268,19 +407,21 @@ class C05(Prop):
                     ops.append(["set", refs, vals, rng.choice(["iter", "iter", "ts", "both"]),
                                 rng.random() < 0.3])
                 elif r < 0.62:
-                    ops.append(["get", self._refs(rng, sh, stale=0.1), rng.choice(["iter", "ts"])])
+                    ops.append(["get", self._xrefs(rng, sh, stale=0.1), rng.choice(["iter", "ts"])])
                 elif r < 0.70:
-                    ops.append(["dofs", self._refs(rng, sh, stale=0.08)])
+                    ops.append(["dofs", self._xrefs(rng, sh, stale=0.08)])
                 elif r < 0.76:
                     ops.append(["ident", rng.randint(-2, total + 2)])
                 elif r < 0.84:
-                    ops.append(["proj", self._refs(rng, sh, stale=0.05)])
+                    ops.append(["proj", self._xrefs(rng, sh, stale=0.05)])
                 elif r < 0.87:
                     ops.append(["num"])
                 else:
                     ops.append(["snap"])
             ops.append(["snap"])
-            yield {"grid": spec, "sds": sds, "intfs": intfs, "ops": ops}
+            yield {"grid": spec, "sds": sds, "intfs": intfs, "ops": ops,
+                   "dtype": rng.choice(["float", "float", "int"]),
+                   "strided": rng.random() < 0.3}
 
     # ------------------------------------------------------------------ implementation
     def run_impl(self, case):
@@ -293,6 +434,9 @@ class C05(Prop):
         index = {}            # Variable.id -> creation index
         mds = {}
 
+        def dom(d):
+            return sdl[d[1]] if d[0] == "sd" else ifl[d[1]]
+
         def resolve(refs):
             if refs is None:
                 return None
@@ -304,6 +448,14 @@ class C05(Prop):
                     out.append(created[r[1]])
                 elif r[0] == "name":
                     out.append(NAMES[r[1]])
+                elif r[0] == "mdname":
+                    doms = None if r[2] is None else [dom(d) for d in r[2]]
+                    out.append(es.md_variable(NAMES[r[1]], doms))
+                elif r[0] == "getvars":
+                    grids = None if r[2] is None else [dom(d) for d in r[2]]
+                    got = es.get_variables(resolve(r[1]), grids=grids)
+                    assert isinstance(got, list)
+                    out += got
                 else:
                     key = tuple(r[1])
                     if key not in mds:
@@ -341,23 +493,42 @@ class C05(Prop):
                     if bad:
                         info = dict(info or {"cells": 1})
                         info["edges"] = 1
-                    md = es.create_variables(
-                        NAMES[name], info,
-                        subdomains=None if sub is None else [sdl[i] for i in sub],
-                        interfaces=None if itf is None else [ifl[i] for i in itf],
-                    )
+                    try:
+                        md = es.create_variables(
+                            NAMES[name], info,
+                            subdomains=None if sub is None else [sdl[i] for i in sub],
+                            interfaces=None if itf is None else [ifl[i] for i in itf],
+                        )
+                    except (KeyError, ValueError, AssertionError, IndexError) as e:
+                        # a rejected call must not have registered anything; if it did,
+                        # record the objects so that the history stays addressable
+                        leaked = []
+                        for v in es.variables:
+                            if v.id not in index:
+                                index[v.id] = len(created)
+                                leaked.append(len(created))
+                                created.append(v)
+                        err = ERRS[[t for t in ERRS if isinstance(e, t)][0]]
+                        outs.append(["err", err] + ([leaked] if leaked else []))
+                        continue
                     ids = []
                     for v in md.sub_vars:
                         index[v.id] = len(created)
                         ids.append(len(created))
                         created.append(v)
+                    assert [index[v.id] for v in es.variables if v.id in index] == \
+                        [index[v.id] for v in es.variables], "unregistered Variable object"
                     mds[tuple(ids)] = md
                     outs.append(["created", ids])
                 elif k == "remove":
                     es.remove_variables(resolve(o[1]))
                     outs.append(["done"])
                 elif k == "set":
-                    arr = np.array(o[2], dtype=float)
+                    arr = np.array(o[2], dtype=int if case.get("dtype") == "int" else float)
+                    if case.get("strided"):       # a non-contiguous view
+                        big = np.full(2 * len(o[2]), 555, dtype=arr.dtype)
+                        big[::2] = arr
+                        arr = big[::2]
                     try:
                         es.set_variable_values(arr, resolve(o[1]), additive=o[4], **kw(o[3]))
                     finally:
@@ -383,6 +554,17 @@ class C05(Prop):
                     outs.append(["proj", rows, int(P.shape[1])])
                 elif k == "num":
                     outs.append(["num", int(es.num_dofs())])
+                elif k == "vars":
+                    outs.append(["idx", [index[v.id] for v in es.variables]])
+                elif k == "regrid":
+                    for g, (nc, nf, nn) in zip(sdl, o[1]):
+                        g.num_cells, g.num_faces, g.num_nodes = nc, nf, nn
+                    for i, nc in zip(ifl, o[2]):
+                        i.num_cells = nc
+                    outs.append(["done"])
+                elif k == "update":
+                    es.update_variable_num_dofs()
+                    outs.append(["done"])
                 elif k == "snap":
                     n = int(es.num_dofs())
                     dofs = []
@@ -427,7 +609,21 @@ class C05(Prop):
                     x += list(range(lay[i][0], lay[i][0] + lay[i][1]))
                 return x
 
-            if k == "create":
+            if k in ("remove", "set", "get", "dofs", "proj") and sh.parse_full(o[1]) is None:
+                # md_variable() on an unknown or mixed-kind name raises before the call
+                if out[0] != "err":
+                    return where + f"unresolvable reference was accepted: {out}"
+                continue
+            if k == "vars":
+                if out != ["idx", sorted(sh.alive)]:
+                    return where + f"variables -> {out}, registered {sorted(sh.alive)}"
+            elif k == "regrid":
+                sh.regrid(o[1], o[2])
+            elif k == "update":
+                if out != ["done"]:
+                    return where + f"update_variable_num_dofs answered {out}"
+                sh.update()
+            elif k == "create":
                 _, name, dof, bad, sub, itf, omit = o
                 ok = (not bad) and ((sub is None) != (itf is None))
                 if out[0] == "created":
@@ -435,11 +631,16 @@ class C05(Prop):
                         return where + "invalid create_variables call was accepted"
                     kind = "sd" if sub is not None else "intf"
                     grids = sub if sub is not None else itf
+                    if len(set(grids)) != len(grids):
+                        return where + "one variable name was registered twice on one grid"
                     ids = sh.create(name, _dof_of(o), kind, grids)
                     if ids != out[1]:
                         return where + "harness: creation indices out of step"
                 elif out[0] != "err":
                     return where + f"unexpected answer {out}"
+                elif len(out) > 2 and out[2]:
+                    return where + (f"rejected create_variables call ({out[1]}) registered "
+                                    f"variables {out[2]}")
             elif k == "remove":
                 ids = sh.parse(o[1])
                 if out == ["done"]:
@@ -486,7 +687,7 @@ class C05(Prop):
                 ids = sh.parse(o[1])
                 if all(i in sh.alive for i in ids):
                     exp = blocks(ids)
-                    if k == "proj" and not o[1]:
+                    if k == "proj" and not sh.parse_full(o[1])[0]:
                         exp = []      # documented: no variables given -> empty projection
                     if k == "dofs":
                         if out != ["idx", exp]:
@@ -633,12 +834,54 @@ class C05(Prop):
         sds = clist(case["sds"], lambda t: f"({cnat(t[0])}, {cnat(t[1])}, {cnat(t[2])})")
         return "{| sds := " + sds + "; intfs := " + self._nl(case["intfs"]) + " |}"
 
+    # extended operations / references (Model.C05x)
+    @staticmethod
+    def _cdom(d):
+        return f"{'Sd' if d[0] == 'sd' else 'Intf'} {cnat(d[1])}"
+
+    @staticmethod
+    def _plain_refs(refs):
+        return refs is None or all(r[0] in ("id", "name", "md") for r in refs)
+
+    def _cxrefs(self, refs):
+        def one(r):
+            if r[0] == "mdname":
+                return (f"XMdName {cnat(r[1])} "
+                        f"{coption(r[2], lambda l: clist(l, self._cdom))}")
+            if r[0] == "getvars":
+                return (f"XGetVars {self._crefs(r[1])} "
+                        f"{coption(r[2], lambda l: clist(l, self._cdom))}")
+            return f"XV ({self._crefs([r])[7:-2]})"      # strip '(Some [' ... '])'
+        return coption(refs, lambda l: clist(l, one))
+
+    def _cxop(self, o):
+        k = o[0]
+        if k == "vars":
+            return "XVariables"
+        if k == "update":
+            return "XUpdate"
+        if k == "regrid":
+            return f"XRegrid {self._cgrid({'sds': o[1], 'intfs': o[2]})}"
+        if k in ("remove", "set", "get", "dofs", "proj") and not self._plain_refs(o[1]):
+            r = self._cxrefs(o[1])
+            if k == "remove":
+                return f"XRemove {r}"
+            if k == "set":
+                w = {"iter": "WIter", "ts": "WTs", "both": "WBoth"}[o[3]]
+                return f"XSet {r} {clist(o[2], cz)} {w} {cbool(o[4])}"
+            if k == "get":
+                return f"XGet {r} {'LIter' if o[2] == 'iter' else 'LTs'}"
+            if k == "dofs":
+                return f"XDofs {r}"
+            return f"XProj {r}"
+        return f"XBase ({self._cop(o)})"
+
     def coq_case(self, case, res):
-        return (f"agree {self._cgrid(case)} {clist(case['ops'], self._cop)} "
+        return (f"xagree {self._cgrid(case)} {clist(case['ops'], self._cxop)} "
                 f"{clist(res['outs'], lambda o: '(' + self._cobs(o) + ')')}")
 
     def coq_diag(self, case, res):
-        return f"snd (run {self._cgrid(case)} init {clist(case['ops'], self._cop)})"
+        return f"snd (xrun (xinit {self._cgrid(case)}) {clist(case['ops'], self._cxop)})"
 
     def nontrivial(self, case, res):
         seen_remove = False
